@@ -31,6 +31,14 @@ def run(sh):
     engine_line.run_profile(sh, 'C05', 'buffers', n // 2, MONITORS, nontrivial, prefix='decimal_', overrides=DECIMAL,
                             tag='decimal')
 
+    # generators that re-use one scratch list for every Batch, in front of a PartBatcher that unpacks it
+    from .. import core, modelgen
+    pol = ['prng', 'fifo', 'lifo', 'const']
+    for i in sh.share(max(16, n // 10)):
+        seed = core.stable_int(sh.seed, 'C05', 'scratch', i) % (1 << 40)
+        engine_line.run_spec(sh, 'C05', modelgen.generate_scratch_batches(seed, pol[i % 4]), MONITORS, nontrivial,
+                             prefix='scratch_')
+
 
 def replay(sh, v):
     engine_line.replay_case(sh, 'C05', v['case'], MONITORS)
